@@ -19,6 +19,7 @@ func c17(c *eng.Ctx, r *eng.Report) {
 		"R17.2 MarkExecuted writes and flushes the executed records before it removes the transactions from pending, UnMarkExecuted deletes the executed record before it re-adds the transaction; " +
 		"R17.3 PackForCast never returns more than the per-block limit, checkNonce sorts first, never packs a transaction on the `expected < nonce` edge, and every transaction that advances its sender's expected nonce is packed; " +
 		"R17.4 every field of TxPool/simpleContainer is of a thread-safe type, immutable after construction, or accessed only with its mutex held (lockset over all access sites, helper functions checked at their call sites). " +
+		"R17.8 the pending container's remove takes out every hash it is handed: on every path to a return the whole parameter list — not a window of it — has been passed to the map's Removes (directly or through a helper of the container that does so); a transaction that is marked executed but stays pending is packed again; " +
 		"R17.6 what the pool iterates over is one atomic snapshot of the pending map: every simpleContainer method that hands out a slice returns the result of a single call on the underlying map (possibly re-sliced), never a slice assembled from separate per-key lookups — between listing the keys and looking them up MarkExecuted or an eviction may remove an entry, and the hole is a nil the packer type-asserts; " +
 		"R17.7 the executed-record batch, which lives as long as the pool, is Reset() after every Write() on every path (a batch that keeps its content replays old executed marks with the next block, undoing an UnMarkExecuted); " +
 		"R17.5 the pending container's push stores the transaction unless the container is full — no other drop condition (the path a reorged block's transactions return through). " +
@@ -77,6 +78,7 @@ func c17(c *eng.Ctx, r *eng.Report) {
 	c17Lockset(c, r)
 	c17PushTotal(c, r)
 	c17Snapshot(c, r)
+	c17RemoveAll(c, r)
 	r.Min("R17.7", 3)
 	batchResetAs(c, r, "R17.7", "service", 2)
 }
@@ -688,4 +690,50 @@ func c17Snapshot(c *eng.Ctx, r *eng.Report) {
 		r.Check(bad == "", rule, "snapshot:"+eng.FuncName(fn), c.Pos(fn.Pos()), "returns the result of one call on the pending map", eng.FuncName(fn)+" hands out a slice that is not the result of a single call on the pending map ("+bad+"): assembled from separate lookups it is not a snapshot — an entry removed in between (MarkExecuted, eviction, expiry) leaves a nil element, and PackForCast's `item.(*types.Transaction)` panics on the casting path, which has no recover")
 	}
 	r.Check(n >= 1, rule, "snapshot:sites", "", fmt.Sprintf("%d slice-returning container methods", n), "no slice-returning method of simpleContainer found (asSlice expected)")
+}
+
+// c17RemoveAll: MarkExecuted writes the executed records and then hands the
+// block's hashes to received.remove. Whatever remove leaves behind is both
+// executed and pending.
+func c17RemoveAll(c *eng.Ctx, r *eng.Report) {
+	const rule = "R17.8"
+	r.Min(rule, 1)
+	fn := c.Func("service", "(*simpleContainer).remove")
+	if !r.Anchor(fn != nil, rule, "(*simpleContainer).remove") || !r.Anchor(len(fn.Params) >= 2, rule, "(*simpleContainer).remove parameters") {
+		return
+	}
+	var whole func(f *ssa.Function, depth int) (bool, string)
+	whole = func(f *ssa.Function, depth int) (bool, string) {
+		list := f.Params[1]
+		var barriers []ssa.Instruction
+		for _, s := range eng.Sites(f) {
+			args := s.Common().Args
+			passesWhole := false
+			for _, a := range args {
+				if a == ssa.Value(list) {
+					passesWhole = true
+				}
+			}
+			if !passesWhole {
+				continue
+			}
+			if strings.HasSuffix(s.Name(), ".Removes") {
+				barriers = append(barriers, s.Instr)
+				continue
+			}
+			if callee := s.Common().StaticCallee(); callee != nil && depth < 2 && callee.Signature.Recv() != nil && strings.Contains(callee.Signature.Recv().Type().String(), "simpleContainer") && len(callee.Params) >= 2 {
+				if ok, _ := whole(callee, depth+1); ok {
+					barriers = append(barriers, s.Instr)
+				}
+			}
+		}
+		for _, re := range eng.Returns(f) {
+			if !eng.MustPassBefore(f, re.Ret, barriers) {
+				return false, c.Pos(re.Ret.Pos())
+			}
+		}
+		return len(barriers) > 0, ""
+	}
+	ok, where := whole(fn, 0)
+	r.Check(ok, rule, "remove:whole-list", c.Pos(fn.Pos()), "every return is preceded by Removes(whole parameter list)", "(*simpleContainer).remove can return ("+where+") without having passed its whole hash list to the pending map's Removes — only windows of it, or nothing: the hashes left out stay pending although MarkExecuted has written their executed records, and the next PackForCast packs them again")
 }
